@@ -64,6 +64,10 @@ def gen(rng, tier):
     edges = [float(e) for e in edges]
     if len(edges) < 2 or any(b <= a for a, b in zip(edges, edges[1:])):
         edges = [0.0, float(np.sqrt(top2 + 0.5) * dk)]
+    if rng.random() < 0.06:
+        # a catch-all last bin: everything above the last finite edge
+        edges[-1] = rng.choice([float('inf'), 1e12 * dk, 3.1e9 * dk])
+        rng_class = 'all'
     which = rng.choice(['kmu', 'kmu', 'kppi'])
     nmu = rng.randrange(1, 7)
     mustyle = rng.choice(['linear', 'random'])
